@@ -1307,6 +1307,9 @@ func (tc *typechecker) checkBuiltinCall(expr *ast.Call) []*typeInfo {
 		}
 		re := tc.checkExpr(expr.Args[0])
 		im := tc.checkExpr(expr.Args[1])
+		if re.Nil() || im.Nil() { // complex(nil, 1)
+			panic(tc.errorf(expr, "cannot convert nil to type float64"))
+		}
 		if re.IsUntypedConstant() && im.IsUntypedConstant() {
 			reKind := re.Type.Kind()
 			imKind := im.Type.Kind()
@@ -1571,6 +1574,9 @@ func (tc *typechecker) checkBuiltinCall(expr *ast.Call) []*typeInfo {
 			panic(tc.errorf(expr, "too many arguments to %s: %s", ident.Name, expr))
 		}
 		t := tc.checkExpr(expr.Args[0])
+		if t.Nil() { // real(nil)
+			panic(tc.errorf(expr, "cannot convert nil to type complex128"))
+		}
 		ti := &typeInfo{Type: float64Type}
 		if t.IsUntypedConstant() {
 			if !isNumeric(t.Type.Kind()) {
